@@ -431,7 +431,7 @@ def lines_agree(ml, il):
     return abs_state(a) == abs_state(b), True
 
 
-def compare_history(h, mlines, ilines, in_projection):
+def compare_history(h, mlines, ilines, in_projection, strict_image=False):
     """first disagreement inside the projection, or None.
     Returns dict(status=agree|diverge|unmodelled|outoffuel, index=..., ...)"""
     n = min(len(mlines), len(ilines))
@@ -456,7 +456,12 @@ def compare_history(h, mlines, ilines, in_projection):
             if ml.endswith("-> PANIC") != il.endswith("-> PANIC"):
                 return {"status": "offproj", "index": i, "compared": compared, "abs_only": abs_only}
             continue
-        ok, via_abs = lines_agree(ml, il)
+        if op == "SAVE" and not strict_image:
+            # the bytes of the image matter to the properties about the format (C08, C09) only; everybody else needs
+            # "save() succeeded" and what load() makes of it (the next lines)
+            ok, via_abs = (ml.split(" ")[:3] == il.split(" ")[:3]), True
+        else:
+            ok, via_abs = lines_agree(ml, il)
         compared += 1
         if via_abs and ok:
             abs_only += 1
